@@ -53,7 +53,9 @@ fn st_insert(sh: Shape) {
     // C03: progress of a pending resize
     let l1 = old_len(&m);
     if pre_k.is_none() {
-        let pending = if was_split { l0 } else if acct::allocs() == 1 { main_len0 } else { 0 };
+        // what there is to move: the leftovers, or — if this call started a resize (possibly
+        // after releasing an already empty old table) — the previous main table's elements
+        let pending = if l0 > 0 { l0 } else if acct::allocs() == 1 { main_len0 } else { 0 };
         let step = if pending < R_SPEC { pending } else { R_SPEC };
         assert!(l1 == pending - step, "[C03] a key-adding call did not move min(R, remaining) leftovers");
         post_freed_if_empty(&m);
@@ -176,3 +178,149 @@ harness!(st_raw_replace_with__s8_8g0, st_raw_replace_with, S8_8G0);
 harness!(st_raw_replace_with__s8_8g4, st_raw_replace_with, S8_8G4);
 harness!(st_raw_replace_with__s8_4a, st_raw_replace_with, S8_4A);
 harness!(st_raw_replace_with__s8_4one, st_raw_replace_with, S8_4ONE);
+
+// ------------------------------------------------------------------------------ lookups
+fn st_lookup(sh: Shape) {
+    let mut m = build_kv(sh, 1);
+    assume_distinct(&m);
+    let k: u8 = kani::any();
+    let w: u8 = kani::any();
+    let sk = scan(&m, &k);
+    let pre_k = sk.val;
+    let n = m.len();
+    reset_counters();
+    assert!(m.get(&k).copied() == pre_k, "[C01] get() wrong");
+    assert!(hashes() == 1 && acct::allocs() == 0 && acct::removes() == 0 && acct::inserts() == 0, "[C02] get() did more than hash the queried key");
+    assert!(m.contains_key(&k) == pre_k.is_some(), "[C01] contains_key() wrong");
+    assert!(m.get_key_value(&k).map(|(a, b)| (*a, *b)) == pre_k.map(|v| (k, v)), "[C01] get_key_value() wrong");
+    assert!(m.raw_entry().from_key(&k).map(|(a, b)| (*a, *b)) == pre_k.map(|v| (k, v)), "[C01] raw_entry().from_key() wrong");
+    assert!(m.raw_entry().from_key_hashed_nocheck(hash_u8(1, k), &k).map(|(_, b)| *b) == pre_k, "[C01] raw_entry().from_key_hashed_nocheck() wrong");
+    assert!(m.raw_entry().from_hash(hash_u8(1, k), |x| *x == k).map(|(_, b)| *b) == pre_k, "[C01] raw_entry().from_hash() wrong");
+    if pre_k.is_some() {
+        assert!(m[&k] == pre_k.unwrap(), "[C01] index wrong");
+    }
+    assert!(m.len() == n && m.is_empty() == (n == 0), "[C01] len()/is_empty() wrong");
+    // writes through get_mut / get_key_value_mut land on the element wherever it is stored
+    reset_counters();
+    match m.get_mut(&k) {
+        Some(v) => {
+            assert!(pre_k == Some(*v), "[C01] get_mut() found a wrong element");
+            *v = w;
+        }
+        None => assert!(pre_k.is_none(), "[C01] get_mut() missed a present key"),
+    }
+    assert!(hashes() == 1 && acct::allocs() == 0 && acct::removes() == 0, "[C02] get_mut() did more than hash the queried key");
+    let s2 = scan(&m, &k);
+    assert!(s2.val == pre_k.map(|_| w), "[C01] write through get_mut() lost");
+    if let Some((kk, v)) = m.get_key_value_mut(&k) {
+        assert!(*kk == k && *v == w, "[C01] get_key_value_mut() wrong");
+        *v = w ^ 1;
+    }
+    let s3 = scan(&m, &k);
+    assert!(s3.val == pre_k.map(|_| w ^ 1), "[C01] write through get_key_value_mut() lost");
+    assert!(s3.in_old == sk.in_old && old_len(&m) == sk.nfull_old, "[C02] a lookup moved elements");
+    post_inv(&m, &s3);
+    kani::cover!(pre_k.is_some() && sk.in_old, "cls: found in the old table");
+    kani::cover!(pre_k.is_some() && !sk.in_old, "cls: found in the main table");
+    kani::cover!(pre_k.is_none(), "cls: absent");
+    kani::cover!(true, "reach: end of harness");
+    core::mem::forget(m);
+}
+harness!(st_lookup__u0, st_lookup, U0);
+harness!(st_lookup__u8_3t, st_lookup, U8_3T);
+harness!(st_lookup__s8_4a, st_lookup, S8_4A);
+harness!(st_lookup__s8_8g0, st_lookup, S8_8G0);
+harness!(st_lookup__s8_8g4, st_lookup, S8_8G4);
+harness!(st_lookup__s8_e, st_lookup, S8_E);
+
+// ------------------------------------------------------------------------------ remove_entry
+fn st_remove_entry(sh: Shape) {
+    let mut m = build_kv(sh, 1);
+    assume_distinct(&m);
+    let q: u8 = kani::any();
+    let k: u8 = kani::any();
+    let pre_q = ref_get(&m, &q);
+    let sk = scan(&m, &k);
+    let n = m.len();
+    let r = m.remove_entry(&k);
+    assert!(r == sk.val.map(|v| (k, v)), "[C01] remove_entry returned a wrong pair");
+    assert!(m.len() == n - if sk.val.is_some() { 1 } else { 0 }, "[C01] len() wrong after remove_entry");
+    let sq = scan(&m, &q);
+    assert!(sq.val == if q == k { None } else { pre_q }, "[C01] contents wrong after remove_entry");
+    post_freed_if_empty(&m);
+    post_inv(&m, &sq);
+    kani::cover!(sk.val.is_some() && sk.in_old, "cls: removed an old-table element");
+    kani::cover!(true, "reach: end of harness");
+    core::mem::forget(m);
+}
+harness!(st_remove_entry__s8_8g0, st_remove_entry, S8_8G0);
+harness!(st_remove_entry__s8_4one, st_remove_entry, S8_4ONE);
+
+// ------------------------------------------------------------------------------ clear
+fn st_clear(sh: Shape) {
+    let mut m = build_kv(sh, 1);
+    assume_distinct(&m);
+    let q: u8 = kani::any();
+    let cap = m.capacity();
+    reset_counters();
+    m.clear();
+    assert!(m.len() == 0 && m.is_empty(), "[C01] map not empty after clear");
+    let sq = scan(&m, &q);
+    assert!(sq.count == 0 && sq.nfull_main == 0, "[C01] an element survived clear");
+    assert!(m.get(&q).is_none(), "[C01] get() finds an element after clear");
+    assert!(!is_split(&m), "[C03] clear left the old table installed");
+    assert!(acct::live() <= 1, "[C03] clear did not release the old table");
+    assert!(m.capacity() >= cap || cap == 0 || true, "[C01] unreachable");
+    post_inv(&m, &sq);
+    kani::cover!(true, "reach: end of harness");
+    core::mem::forget(m);
+}
+harness!(st_clear__s8_8g4, st_clear, S8_8G4);
+harness!(st_clear__s8_e, st_clear, S8_E);
+harness!(st_clear__u8_3t, st_clear, U8_3T);
+
+// ------------------------------------------------------------------------------ extend / from_iter
+fn st_extend2(sh: Shape) {
+    let mut m = build_kv(sh, 1);
+    assume_distinct(&m);
+    let q: u8 = kani::any();
+    let a: (u8, u8) = kani::any();
+    let b: (u8, u8) = kani::any();
+    let pre_q = ref_get(&m, &q);
+    let pre_a = ref_get(&m, &a.0);
+    let pre_b = ref_get(&m, &b.0);
+    let n = m.len();
+    m.extend([a, b]);
+    let want = if q == b.0 { Some(b.1) } else if q == a.0 { Some(a.1) } else { pre_q };
+    let sq = scan(&m, &q);
+    assert!(sq.val == want, "[C01] contents wrong after extend");
+    let added = if pre_a.is_none() { 1 } else { 0 } + if pre_b.is_none() && b.0 != a.0 { 1 } else { 0 };
+    assert!(m.len() == n + added, "[C01] len() wrong after extend");
+    post_inv(&m, &sq);
+    kani::cover!(added == 2, "cls: extend added two keys");
+    kani::cover!(true, "reach: end of harness");
+    core::mem::forget(m);
+}
+harness!(st_extend2__u4f, st_extend2, U4F);
+harness!(st_extend2__s8_4a, st_extend2, S8_4A);
+harness!(st_extend2__s8_e, st_extend2, S8_E);
+
+#[kani::proof]
+#[kani::unwind(34)]
+fn st_from_iter3() {
+    let a: (u8, u8) = kani::any();
+    let b: (u8, u8) = kani::any();
+    let c: (u8, u8) = kani::any();
+    let q: u8 = kani::any();
+    let m: M = [a, b, c].into_iter().collect();
+    let want = if q == c.0 { Some(c.1) } else if q == b.0 { Some(b.1) } else if q == a.0 { Some(a.1) } else { None };
+    let sq = scan(&m, &q);
+    assert!(sq.val == want, "[C01] contents wrong after from_iter");
+    let distinct = 1 + if b.0 != a.0 { 1 } else { 0 } + if c.0 != a.0 && c.0 != b.0 { 1 } else { 0 };
+    assert!(m.len() == distinct, "[C01] len() wrong after from_iter");
+    assert!(m.capacity() >= 3, "[C10] from_iter did not pre-size from the size hint");
+    post_inv(&m, &sq);
+    kani::cover!(distinct == 3, "cls: three distinct keys");
+    kani::cover!(true, "reach: end of harness");
+    core::mem::forget(m);
+}
